@@ -10,6 +10,7 @@ import (
 	"os"
 	"sort"
 	"strings"
+	"sync"
 	"time"
 )
 
@@ -29,6 +30,22 @@ func Main(id string, f func(c *Ctx)) {
 	c.Widen = *widen
 	c.ReplayFile = *replay
 	start := time.Now()
+	var once sync.Once
+	OnTimeout = func(desc map[string]interface{}) {
+		once.Do(func() {
+			c.Fail(Failure{Kind: "oracle", What: "execution does not terminate (run cut off by the harness watchdog)", Case: desc})
+			c.res.WallS = time.Since(start).Seconds()
+			c.res.Notes = append(c.res.Notes, "aborted early after a non-terminating run")
+			c.finish()
+			b, _ := json.MarshalIndent(c.res, "", " ")
+			if *out != "" {
+				os.WriteFile(*out, b, 0o644)
+			} else {
+				os.Stdout.Write(b)
+			}
+			os.Exit(0)
+		})
+	}
 	func() {
 		defer func() {
 			if r := recover(); r != nil {
